@@ -2350,7 +2350,12 @@ class HedgeRisks(Algo):
             i = d.index.get_loc(target.now)
             data.append((i, d))
 
-        hedge_risk = np.array([[_get_unit_risk(s, d, i) for (i, d) in data] for s in securities])
+        def _multiplier(s):
+            # risk of one unit of notional is unit risk x multiplier (see UpdateRisk)
+            sec = target.children.get(s, target._lazy_children.get(s))
+            return getattr(sec, "multiplier", 1.0)
+
+        hedge_risk = np.array([[_get_unit_risk(s, d, i) * _multiplier(s) for (i, d) in data] for s in securities])
 
         # Get hedge ratios
         if self.pseudo:
